@@ -686,6 +686,9 @@ func (fr *Frame) alloc(v *ssa.Alloc, st *State) {
 		}
 	case *types.Array:
 		val.Loc = &Loc{Kind: locStruct, Base: r, GoT: el}
+		if e.ownerOn() {
+			e.setOwner(st, r, "1")
+		}
 		c, es := e.elemComp(u.Elem())
 		srt := arrSort(es)
 		e.set(st, c, srt, sStore(e.get(st, c, srt), r, "((as const (Array Int "+es+")) "+e.zero(u.Elem())+")"))
@@ -1396,6 +1399,8 @@ func (fr *Frame) frameCond(comp string, v string) (string, bool) {
 			return "", false
 		case "at":
 			cs = append(cs, "(not (= "+v+" "+t.Base+"))")
+		case "elems":
+			cs = append(cs, "(not ("+t.In+" "+v+"))")
 		case "loc":
 			if t.Loc.Kind == locGlobal {
 				return "", false
